@@ -181,6 +181,14 @@ def check_property(pid, tier, seed, repo_src, verif, jobs=16, only=None, verbose
                 undecided.append(f"{r['contract']}: {r['status']}: {'; '.join(r.get('notes', []))}")
             continue
         x = r.get('crosscheck')
+        if x and x.get('native_failures') and r['status'] != 'failed':
+            nf = x['native_failures'][0]
+            key = f"{r['sidecar'].split('.')[-1]}.{r['contract']}#{nf['failed'][0]}"
+            fname = os.path.join('replays', f"{pid}-{r['contract']}-native-sample.json")
+            json.dump({'property': pid, 'obligation': key, 'function': r['target'], 'sidecar': r['sidecar'], 'contract': r['contract'], 'clause': nf['failed'][0],
+                       'status': 'confirmed-on-real-code (sampled input of the CPython cross-check; the symbolic model did not expose it - an assumed contract on a dependency is too strong)',
+                       'leaves': nf['leaves'], 'native': nf}, open(os.path.join(verif, fname), 'w'), indent=1, default=str)
+            violations.append((key, fname, ''))
         if x:
             for k in xc:
                 xc[k] += x.get(k, 0)
